@@ -379,7 +379,10 @@ def run(ctx):
     for i in range(n_exact):
         kind = ["spin", "hcb", "holstein"][i % 3]
         shape = ["binary", "random", "star", "linear", "comb"][i % 5]
-        c = gen_tree_case(rng, 0, n=rng.randrange(3, 6 if quick else 7), shape=shape, kind=kind, max_dofs=5 if quick else 7)
+        n_ = rng.randrange(3, 6 if quick else 7)
+        if shape == "star":            # the root tensor of a star grows exponentially with its degree (pc, two-site): keep it cheap
+            n_ = min(n_, 4)
+        c = gen_tree_case(rng, 0, n=n_, shape=shape, kind=kind, max_dofs=5 if quick else 7)
         c.update({"kind": "exact", "methods": ["ps", "ps2", "pc", "vmf"] if i % 2 == 0 or not quick else ["ps", "ps2", "pc"],
                   "imag": [False, True], "steps": [0.2, 0.1, 0.05, 0.02], "vmf_steps": [0.1, 0.02], "nsteps": 3})
         add(c)
@@ -390,7 +393,10 @@ def run(ctx):
     for i in range(6 if quick else 40):
         kind = ["hcb", "spin", "holstein"][i % 3]
         shape = ["random", "binary", "star", "linear", "comb"][i % 5]
-        c = gen_tree_case(rng, 0, n=rng.randrange(4, 8), shape=shape, kind=kind, max_dofs=7)
+        n_ = rng.randrange(4, 8)
+        if shape == "star":
+            n_ = min(n_, 5)
+        c = gen_tree_case(rng, 0, n=n_, shape=shape, kind=kind, max_dofs=7)
         c.update({"kind": "small", "m": 2, "step": rng.choice([0.1, 0.05]), "nsteps": 5})
         add(c)
     for i in range(5 if quick else 30):
@@ -413,6 +419,7 @@ def run(ctx):
     oracle_runs = 0
     ostats = {"exact": 0, "small": 0, "chain": 0, "aux": 0}
     worst = {}
+    regimes = {"exact_complete": 0, "second_order_after_bond_shrink": 0}
     by_id = {c["id"]: c for c in ocases}
     for (rc_, r_, out_), sh in zip(ores, shards):
         if r_ is None:
@@ -431,6 +438,11 @@ def run(ctx):
                     worst[k_] = max(worst.get(k_, 0.0), st[k_])
             for k_, v_ in (st.get("diffs") or {}).items():
                 worst["chain:" + k_.split("/")[0]] = max(worst.get("chain:" + k_.split("/")[0], 0.0), v_)
+            if item["kind"] == "exact":
+                regimes["exact_complete" if not st.get("ps_shrunk") else "second_order_after_bond_shrink"] += 1
+            if item["kind"] == "small" and "reversal_dev" in st:
+                k_ = "reversal_chain" if st.get("chain") else "reversal_branching(informational)"
+                worst[k_] = max(worst.get(k_, 0.0), st["reversal_dev"])
             if item["kind"] == "small" and not st.get("truncated", True):
                 ctx.notes.append("small-bond case %s was not actually truncated" % item["id"])
             for f in item["fails"]:
@@ -478,7 +490,7 @@ def run(ctx):
             # the trace mismatch itself is a failing input of the correspondence; a dense failing input, if any, was reported above
             ctx.violation("trace:" + k.replace(" ", "-"), "correspondence event-trace (Model/TreeSweep.v vs tn/time_evolution.py): " + bl[0]["what"],
                           {"n": len(bl), "first": bl[0]}, found=False)
-    dist = {"trace_cases": hist, "oracle_cases": ostats, "chain_trace_cases": len(chain_cases)}
+    dist = {"trace_cases": hist, "oracle_cases": ostats, "chain_trace_cases": len(chain_cases), "projector_splitting_regimes": regimes}
     return {"evaluations": n_eval + oracle_runs, "distinct_nontrivial": len(nontriv),
             "rule": "a trace case counts once per distinct (children-count profile in pre-order, scheme, real/imag) whose logged event sequence"
                     " equals the model's exactly and passes the Coq replay checker; chain cases per (n, centre); oracle cases are counted in evaluations only",
